@@ -181,7 +181,7 @@ func c13NewWorld() *c13World {
 	w := &c13World{servers: map[string]*c13Server{}}
 	w.servers["A"] = c13Start("A", ca)
 	w.servers["B"] = c13Start("B", cb)
-	w.servers["C"] = c13Start("C", cc, la) /* chain: leaf C, then A's certificate */
+	w.servers["C"] = c13Start("C", cc, la)          /* chain: leaf C, then A's certificate */
 	w.servers["I"] = c13Start("I", c13Impostor(la)) /* A's certificate in everything but the key */
 	pa, pb := hworld.PinOf(w.servers["A"].chain[0]), hworld.PinOf(w.servers["B"].chain[0])
 	w.pins = map[string]string{
